@@ -102,14 +102,14 @@ theorem leftLoose_of_UL (S : Schema) : ∀ (x : Nat) (t : TypeId) (k : List Node
       exact ⟨hm, by simp, h1, leftLoose_of_UL S x tc kc h3 (by simpa using hu)⟩
     · exact ⟨hm, hrl, h1, leftLoose_of_UL S x tc kc h3 hu⟩
 
-/-- the fragment at slice depth `sd ≤ open_start`: open `open_start - sd` levels at its start; at its end either
-    closed, or — when it lies at the end of a single chain — open `open_end - sd` levels -/
+/-- the fragment at slice depth `sd ≤ open_start`: open `open_start - sd` levels at its start; at its end open
+    `open_end - sd` levels when it lies at the end of a single chain, closed otherwise -/
 theorem UL_contentAt (S : Schema) : ∀ (sd os oe : Nat) (c F : List Node), UL S os oe c → contentAt c sd = .ok F →
-    sd ≤ os → ∃ oe', UL S (os - sd) oe' F ∧ (oe' = 0 ∨ (pureTo sd c F ∧ oe' = oe - sd))
+    sd ≤ os → ∃ oe', UL S (os - sd) oe' F ∧ ((pureTo sd c F ∧ oe' = oe - sd) ∨ (¬ pureTo sd c F ∧ oe' = 0))
   | 0, os, oe, c, F, h, hc, _ => by
     have := pure_ok hc
     subst this
-    exact ⟨oe, h, .inr ⟨rfl, rfl⟩⟩
+    exact ⟨oe, h, .inl ⟨rfl, rfl⟩⟩
   | sd + 1, os, oe, c, F, h, hc, hle => by
     obtain ⟨os', rfl⟩ : ∃ os', os = os' + 1 := ⟨os - 1, by omega⟩
     obtain ⟨t, a, m, k, rest, e, h1, h2, h3, h4⟩ := h
@@ -121,14 +121,22 @@ theorem UL_contentAt (S : Schema) : ∀ (sd os oe : Nat) (c F : List Node), UL S
     · subst hr
       obtain ⟨oe', hu', hd⟩ := UL_contentAt S sd os' (oe - 1) k F hu hc (by omega)
       refine ⟨oe', hu', ?_⟩
-      rcases hd with h0 | ⟨hp, he⟩
-      · exact .inl h0
-      · exact .inr ⟨⟨t, a, m, k, rfl, hp⟩, by omega⟩
+      rcases hd with ⟨hp, he⟩ | ⟨hp, he⟩
+      · exact .inl ⟨⟨t, a, m, k, rfl, hp⟩, by omega⟩
+      · refine .inr ⟨?_, he⟩
+        intro ⟨t', a', m', k', e', hp'⟩
+        simp only [List.cons.injEq, Node.elem.injEq, and_true] at e'
+        obtain ⟨_, _, _, e4⟩ := e'
+        subst e4
+        exact hp hp'
     · obtain ⟨oe', hu', hd⟩ := UL_contentAt S sd os' 0 k F hu hc (by omega)
-      refine ⟨oe', hu', .inl ?_⟩
-      rcases hd with h0 | ⟨_, he⟩
-      · exact h0
-      · omega
+      refine ⟨oe', hu', .inr ⟨?_, ?_⟩⟩
+      · intro ⟨t', a', m', k', e', _⟩
+        simp only [List.cons.injEq] at e'
+        exact hr e'.2
+      · rcases hd with ⟨_, he⟩ | ⟨_, he⟩
+        · omega
+        · exact he
 
 /-- the nodes of such a fragment off its two open ends are valid -/
 theorem UL_closed_at (S : Schema) (x b : Nat) (F : List Node) (h : UL S x b F) (j : Nat) (node : Node)
@@ -434,5 +442,148 @@ theorem ValR_of_coh_RL (S : Schema) (D g : Nat) (base : List FItem) : ∀ (pushe
     subst hit'
     rw [← ht']
     exact ⟨r3, r4⟩
+
+/-! ### the take loop on the fragment of a loose-valid slice -/
+
+theorem RL_last (S : Schema) (b : Nat) (G : List Node) (h : RL S (b + 1) G) (ln : Node) (hl : G.getLast? = some ln) :
+    ∃ t a m k, ln = .elem t a m k ∧ canonicalMarks S m = true ∧ t < S.nodes.size ∧ MarksOK S t k ∧ RL S b k := by
+  obtain ⟨init, t, a, m, k, e, _, h2, h3, h4, h5⟩ := h
+  subst e
+  simp only [List.getLast?_concat, Option.some.injEq] at hl
+  exact ⟨t, a, m, k, hl.symm, h2, h3, h4, h5⟩
+
+theorem takeLoop_good_UL (S : Schema) (hdet : DetS S) (hleaf : PM.FromDom.LeafOk S) (hts : TextStableP S)
+    (d : Dfa) (fty : TypeId) (x : Nat) (oec0 : Int) (b oe' : Nat) (F : List Node) (q : Nat) (add : List Node)
+    (tk : Nat × Nat × List Node) (hU : UL S x oe' F)
+    (hK : 0 < oec0 → oe' = b + 1 ∧ oec0 = ((b + 1 : Nat) : Int)) (hK' : ¬ 0 < oec0 → oe' = 0)
+    (hskip : ∀ next, F = [next] → ¬ (0 < oec0 ∧ x ≠ 0 ∧ fsize next.kids = 0))
+    (hF : F = [] → ¬ 0 < oec0)
+    (h : takeLoop S d fty x oec0 F.length F 0 q add = .ok tk)
+    (hadd : S.checkKids add = true) (haddm : MarksOK S fty add) :
+    TakeGood S fty F.length oec0 b tk.1 tk.2.2 := by
+  cases F with
+  | nil =>
+    have := pure_ok h
+    subst this
+    exact ⟨haddm, fun ⟨_, hpos⟩ => absurd hpos (hF rfl), fun _ => hadd⟩
+  | cons next rest' =>
+    have hlen : (next :: rest').length = 1 + rest'.length := by simp only [List.length_cons]; omega
+    refine takeLoop_good S d fty x oec0 _ b next rest' q add tk h hlen hadd haddm ?_ ?_ ?_ ?_ ?_
+    · -- the first node, closed completely
+      intro hno n1 hn1
+      have hoe : (if (0 + 1 == (next :: rest').length) = true then oec0 else -1) ≤ (0 : Int) := by
+        split
+        · rename_i he
+          have he' : (next :: rest').length = 1 := by simpa using he
+          have : ¬ 0 < oec0 := fun hp => hno ⟨he', hp⟩
+          omega
+        · omega
+      cases x with
+      | zero =>
+        have := pure_ok hn1
+        subst this
+        apply checkNode_withMarks_allowed
+        refine UL_closed_at S 0 oe' _ hU 0 next rfl (.inl rfl) ?_
+        by_cases h1 : rest' = []
+        · subst h1
+          left
+          exact hK' (fun hp => hno ⟨rfl, hp⟩)
+        · right
+          cases rest' with
+          | nil => exact absurd rfl h1
+          | cons y ys => simp
+      | succ x' =>
+        obtain ⟨t, a, m, k, rest, e, h1, h2, h3, h4⟩ := hU
+        simp only [List.cons.injEq] at e
+        obtain ⟨e1, e2⟩ := e
+        subst e1; subst e2
+        simp only [Node.withMarks, Node.marks] at hn1
+        refine closeNodeStart_closed_valid S hdet hleaf hts x' t a _ k _ n1 hoe
+          (canonicalMarks_allowedMarks S _ m h1) (leftLoose_of_UL S x' t k h3 ?_) hn1
+        rcases h4 with ⟨hr, hu⟩ | ⟨_, hu, _⟩
+        · subst hr
+          have : oe' = 0 := hK' (fun hp => hno ⟨rfl, hp⟩)
+          subst this
+          simpa using hu
+        · exact hu
+    · -- the only node, open at the end
+      intro he hpos n1 hn1
+      obtain ⟨hoe', hoc⟩ := hK hpos
+      have hr0 : rest' = [] := by
+        cases rest' with
+        | nil => rfl
+        | cons y ys => simp only [List.length_cons] at he; omega
+      subst hr0
+      subst hoe'
+      rw [hoc] at hn1
+      cases x with
+      | zero =>
+        have := pure_ok hn1
+        subst this
+        obtain ⟨t, a, m, k, e, h2, h3, h4, h5⟩ := RL_last S b [next] hU next rfl
+        subst e
+        exact ⟨t, a, _, k, rfl, canonicalMarks_allowedMarks S _ m h2, h3, h4, h5⟩
+      | succ x' =>
+        obtain ⟨t, a, m, k, rest, e, h1, h2, h3, h4⟩ := hU
+        simp only [List.cons.injEq] at e
+        obtain ⟨e1, e2⟩ := e
+        subst e1; subst e2
+        simp only [Node.withMarks, Node.marks] at hn1
+        rcases h4 with ⟨_, hu⟩ | ⟨hr, _, _⟩
+        · simp only [Nat.add_sub_cancel] at hu
+          obtain ⟨kk, hr', hm', hrl'⟩ := closeNodeStart_open S hdet hleaf hts x' t a _ k b n1
+            (canonicalMarks_allowedMarks S _ m h1) h3 hu hn1
+          exact ⟨t, a, _, kk, hr', canonicalMarks_allowedMarks S _ m h1, h2, hm', hrl'⟩
+        · exact absurd rfl hr
+    · intro ⟨he, hpos, hx, hk⟩
+      have hr0 : rest' = [] := by
+        cases rest' with
+        | nil => rfl
+        | cons y ys => simp only [List.length_cons] at he; omega
+      subst hr0
+      exact hskip next rfl ⟨hpos, hx, hk⟩
+    · intro j node hj hjl
+      refine UL_closed_at S x oe' _ hU (j + 1) node (by simpa using hj) (.inr (by omega)) ?_
+      rcases hjl with h0 | h0
+      · exact .inr (by simp only [List.length_cons]; omega)
+      · exact .inl (hK' h0)
+    · intro hpos ln hln
+      obtain ⟨hoe', _⟩ := hK hpos
+      subst hoe'
+      have hne : rest' ≠ [] := by intro h0; subst h0; simp at hln
+      cases x with
+      | zero =>
+        refine RL_last S b _ hU ln ?_
+        cases rest' with
+        | nil => exact absurd rfl hne
+        | cons y ys => rw [List.getLast?_cons_cons]; exact hln
+      | succ x' =>
+        obtain ⟨t, a, m, k, rest, e, h1, h2, h3, h4⟩ := hU
+        simp only [List.cons.injEq] at e
+        obtain ⟨e1, e2⟩ := e
+        subst e1; subst e2
+        rcases h4 with ⟨hr, _⟩ | ⟨_, _, hrl⟩
+        · exact absurd hr hne
+        · exact RL_last S b _ hrl ln hln
+
+theorem fromArray_snoc_elem (l : List Node) (t : TypeId) (a : Attrs) (m : Marks) (k : List Node) :
+    fromArray (l ++ [.elem t a m k]) = fromArray l ++ [.elem t a m k] := by
+  unfold fromArray addNodes
+  rw [List.foldl_append]
+  simp only [List.foldl_cons, List.foldl_nil, addNode_elem]
+
+/-- adding `from_array(Xraw)` at a level and moving its match along -/
+theorem LevelR_add (S : Schema) (hts : TextStableP S) (mk : Bool) (top : FItem) (q q' : Nat) (F0 Xraw : List Node)
+    (h2 : LevelR S mk top F0) (hq : top.st = some q) (hrun : (S.dfa top.ty).run q (S.types Xraw) = some q')
+    (hXm : MarksOK S top.ty Xraw) : LevelR S mk ⟨top.ty, some q'⟩ (fappend F0 (fromArray Xraw)) := by
+  intro hmk
+  obtain ⟨a1, a2, qq, a3, a4⟩ := h2 hmk
+  rw [hq] at a3
+  simp only [Option.some.injEq] at a3
+  subst a3
+  refine ⟨a1, MarksOK_fappend S _ F0 _ a2 (MarksOK_fromArray S _ _ hXm), q', rfl, ?_⟩
+  apply run_fappend_some hts
+  rw [Dfa.run_append, a4]
+  exact run_fromArray_some hts _ _ _ _ hrun
 
 end PM
